@@ -58,6 +58,7 @@ class Ref:
         self.winner_of = {}      # (consumer, pname) -> candidate
         self.rec_iters = {}      # dest -> iterations done
         self.must_nodes = set()
+        self.rec_epoch = 0
         self.tried = []          # candidates evaluated
         self.losers = {}         # one-of consumer -> losing candidates
         self.ctx = []            # stack of candidate ids being evaluated
@@ -160,15 +161,22 @@ class Ref:
                 self._note_fail_ctx(nid)
             return self.memo[nid]
         node = self.nodes[nid]
-        kwargs = {}
-        causes = set()
-        used = []
-        for idx, (pname, m) in enumerate(node.get('params', [])):
-            o = self.eval_mark(nid, idx, pname, m, used)
-            if o[0] == 'ok':
-                kwargs[pname] = o[1]
-            else:
-                causes |= o[1]
+        # A parameter may read a node inside a recurrent subgraph that another parameter (directly or
+        # transitively) drives to completion: consumers see the FINAL iteration's value (C03), so the
+        # parameters are re-read until no re-iteration happened while reading them.
+        for _round in range(6):
+            epoch0 = self.rec_epoch
+            kwargs = {}
+            causes = set()
+            used = []
+            for idx, (pname, m) in enumerate(node.get('params', [])):
+                o = self.eval_mark(nid, idx, pname, m, used)
+                if o[0] == 'ok':
+                    kwargs[pname] = o[1]
+                else:
+                    causes |= o[1]
+            if self.rec_epoch == epoch0:
+                break
         self.resolved[nid] = used
         if nid == self.prog['input']:
             kwargs.update(self.input_kwargs)
@@ -254,6 +262,7 @@ class Ref:
             for n in sub:
                 self.memo.pop(n, None)
             self.env[start] = out[1]
+            self.rec_epoch += 1
             out = self.eval_node(dest)
             it += 1
         self.rec_iters[dest] = it
